@@ -75,6 +75,7 @@ def run(chk, replay=None):
     chk.assume("TLC/SANY", "sympy free_symbols / xreplace", "symbols compared as name + explicitly set assumptions")
     real = ampl_run.REAL_THOROUGH if tier == "thorough" else ampl_run.REAL_QUICK
     cases = ampl_run.build_cases(chk, n_synth=250 if tier == "thorough" else 22, configs=configs, real=real, which={"closure"}, budget_s=1000 if tier == "thorough" else 55, reformulate=True, spec_fn=spec_source(tier))
+    cases = cases + ampl_run.universe_cases(chk, stride=3 if tier == "thorough" else 12, offset=8, which={"closure"})
     ok_cases = [c for c in cases if c[3] is not None]
     inadmissible = 0
     for label, reaction, cfg, model, rec in cases:
